@@ -40,6 +40,7 @@ type Profile struct {
 	NoFold                                                  bool // do not use case-folding collections
 	NoLowerOverwrite                                        bool // never overwrite a key with a lower priority (C13 heap order)
 	DistinctPrio                                            bool
+	CacheOps                                                int // weight of a composite step: `cstate` then 3-8 of cget/cmin/cmax/cevict (Model L: exact answers, reads and cache transitions)
 	Cfg                                                     func(r *rand.Rand) int
 }
 
@@ -599,6 +600,31 @@ func (g *Gen) history() []string {
 			n := g.pickName(s, true)
 			k := g.key()
 			g.emit("setroot %d %s %s %d %d", s.sid, hx([]byte(n)), hx(k), g.prio(n, k), r.Intn(4))
+		}},
+		{p.CacheOps, func() {
+			// a burst of lookups and evictions on one version of one collection: the model is told
+			// the cached view once and must predict every answer, every file read and every view
+			// that follows (the writable store in any state: dirty, flushed, evicted, re-opened.  Not
+			// through snapshots: a snapshot shares its node objects with the original, so a later Flush
+			// of the original gives them locations, which the model's snapshot - a value - does not see)
+			s := g.pickStore(true)
+			if s == nil || s.mem {
+				return
+			}
+			hn := hx([]byte(g.pickName(s, true)))
+			g.emit("cstate %d %s", s.sid, hn)
+			for i, m := 0, 3+r.Intn(6); i < m; i++ {
+				switch r.Intn(8) {
+				case 0, 1, 2, 3:
+					g.emit("cget %d %s %s %d", s.sid, hn, hx(g.key()), r.Intn(2))
+				case 4:
+					g.emit("cmin %d %s %d", s.sid, hn, r.Intn(2))
+				case 5:
+					g.emit("cmax %d %s %d", s.sid, hn, r.Intn(2))
+				default:
+					g.emit("cevict %d %s", s.sid, hn)
+				}
+			}
 		}},
 		{p.Cold, func() {
 			// cold mutation under a snapshot: a deeper tree is flushed and the store re-opened (every
